@@ -101,4 +101,14 @@ static int md_stub_serializePayload(const KSI_MetaData *t, unsigned char *buf, s
 KSI_TreeNode g_occ;
 KSI_DataHash g_occ_hash;      /* hash object of the representative occupant */
 size_t g_w1, g_w2;            /* witness slot indices, g_w1 < g_w2 < 256 */
+
+/* ---- ghost records written by the CONTRACTS of callees that addLeaf is verified against ---------------- */
+unsigned g_pin_calls;         /* calls of processAndInsertNode */
+int g_pin_res;                /* its last result */
+KSI_TreeNode *g_pin_node;     /* the node handed to it */
+long g_pin_delta;             /* funnel blocks it allocated and kept (joined nodes), >= 0; 0 on failure */
+unsigned g_chl_calls;         /* calls of calculateHighestLevel */
+unsigned g_chl_result;        /* its last result */
+unsigned g_lwo_calls;         /* calls of levelWithOverhead */
+KSI_TreeLeafHandle *g_leaf_out;   /* out-parameter object of addLeaf harnesses */
 #endif
